@@ -132,6 +132,12 @@ AccOK == IF Relaxed("ACC") THEN TRUE
          ELSE \A k \in AccBad : PrintT("ACCFAIL " \o k[1] \o " " \o k[2] \o " " \o ToString(Median(acc[k].d)) \o " " \o ToString(Median(acc[k].ld)) \o " max " \o ToString(MaxOf(acc[k].d)) \o " " \o ToString(MaxOf(acc[k].ld))) /\ FALSE
 TEval      == IsEvent("eval")    /\ M!Eval(Ev.p, Ev.api, Ev.fn, Ev.sig, <<Ev.a, Ev.di, Ev.ni, Ev.pair>>, Ev.cb, Out(Ev)) /\ LiveBound(Ev) /\ PairStep(Ev) /\ AccStep(Ev)
 
+TTestPoly  == IsEvent("testpoly") /\ M!TestPoly(Ev.p, Ev.api, Out(Ev))                      /\ LiveBound(Ev)
+TVersion   == IsEvent("version")  /\ M!Version(Ev.p, Ev.api, Out(Ev), 5101)                 /\ LiveBound(Ev)    \* 0.51.1
+TPassFunc  == IsEvent("passfunc") /\ M!PassFunc(Ev.p, Ev.api, Out(Ev),
+                   IF Ev.end # "ret" THEN TRUE ELSE NClose(NFromStr(Ev.ret), Callback(Ev.cb, NFromStr(Ev.a)), 6, Ev.p)) /\ LiveBound(Ev)
+TTestDefault == IsEvent("testdefault") /\ M!TestDefault(Ev.p, Ev.api, Ev.v, Ev.v = TMarker(Ev.p) \/ Ev.v = TSentinel(Ev.p), Out(Ev))        /\ LiveBound(Ev)
+
 \* "end": the script ran to completion; the process is still running, nothing changed
 TEnd == /\ IsEvent("end") /\ status = "run" /\ AccOK
         /\ IF Relaxed("LIVE") THEN TRUE ELSE (Ev.live[1] = live["d"] /\ Ev.live[2] = live["ld"])
@@ -154,6 +160,7 @@ TNext == \/ TEval
             /\ \/ TInit \/ TSelect \/ TList \/ TPrintId \/ TName \/ TDim
                \/ TSetParam \/ TGetParam \/ TInitParam \/ TPurge \/ TSanity
                \/ TSetVec \/ TGetVec \/ TDispP \/ TDispV
+               \/ TTestPoly \/ TVersion \/ TPassFunc \/ TTestDefault
                \/ TEnd \/ TFini
 
 \* after exit(1) the process may only be followed by its fini record or a reset
